@@ -266,6 +266,29 @@ def locate(src, sel):
 
 
 # ---------------------------------------------------------------- splicing
+def decode_byte_string(lit):
+    body = lit[2:-1]
+    out, i = [], 0
+    esc = {"n": 10, "r": 13, "t": 9, "\\": 92, "0": 0, '"': 34, "'": 39}
+    while i < len(body):
+        c = body[i]
+        if c == "\\":
+            n = body[i + 1]
+            if n == "x":
+                out.append(int(body[i + 2:i + 4], 16)); i += 4; continue
+            if n == "\n":  # line continuation
+                i += 2
+                while i < len(body) and body[i] in " \t\n\r": i += 1
+                continue
+            if n not in esc:
+                raise Undecided(f"R8: unknown escape in byte string {lit}")
+            out.append(esc[n]); i += 2; continue
+        if ord(c) > 127:
+            raise Undecided(f"R8: non-ASCII byte string {lit}")
+        out.append(ord(c)); i += 1
+    return out
+
+
 def apply_rewrite(text, frm, to):
     """literal rewrite; whitespace in `frm` matches any run of whitespace (incl. none) in the source"""
     pat = r"\s*".join(re.escape(c) for c in frm.split())
@@ -275,7 +298,7 @@ def apply_rewrite(text, frm, to):
 LOOP_KW = ("for", "while", "loop")
 
 
-def splice_fn(text, spec=None, ret=None, loops=None, before=None, after=None, rewrites=None, strip_pub=False, log=None, sel=""):
+def splice_fn(text, spec=None, ret=None, loops=None, before=None, after=None, rewrites=None, strip_pub=False, log=None, sel="", forloops=None):
     """text = verbatim fn item. Returns (new_text, segments) where segments = list of (kind, label, line_lo, line_hi)
     relative to new_text, for mapping verifier diagnostics back to named clauses."""
     log = log if log is not None else []
@@ -285,6 +308,19 @@ def splice_fn(text, spec=None, ret=None, loops=None, before=None, after=None, re
         if cnt == 0:
             raise Undecided(f"rewrite {rule} `{frm}` no longer applies in {sel}")
         log.append({"rule": rule, "item": sel, "from": frm, "to": to, "count": cnt})
+    # 1b) R8: byte-string literals b"..." -> &[b0, b1, ..] (Verus gives byte-string literals no view); same bytes, computed here
+    toks0 = tokenize(text)
+    outp, n8 = [], 0
+    for t in toks0:
+        if t[0] == "str" and t[1].startswith('b"'):
+            bs = decode_byte_string(t[1])
+            outp.append("&[" + ", ".join(f"{b}u8" for b in bs) + "]")
+            n8 += 1
+        else:
+            outp.append(t[1])
+    if n8:
+        text = "".join(outp)
+        log.append({"rule": "R8", "item": sel, "from": 'b"..."', "to": "&[bytes]", "count": n8})
     # 2) ghost lines (line based, done before token-level edits; we re-tokenize afterwards)
     lines = text.split("\n")
 
@@ -367,10 +403,37 @@ def splice_fn(text, spec=None, ret=None, loops=None, before=None, after=None, re
                 if lb is not None:
                     loop_idx.append((j, lb))
             j += 1
+        fl = dict(forloops or [])
         for k, inv in loops:
             if k > len(loop_idx):
                 raise Undecided(f"lost anchor: loop #{k} in {sel} (found {len(loop_idx)})")
-            edits.append((ct[loop_idx[k - 1][1]][2], "\n/*@LOOP-BEGIN %d*/\n" % k + "\n".join(inv) + "\n/*@LOOP-END*/\n", 0))
+            kwi, lbi = loop_idx[k - 1]
+            invtxt = "\n/*@LOOP-BEGIN %d*/\n" % k + "\n".join(inv) + "\n/*@LOOP-END*/\n"
+            if k in fl:
+                # R2: `for PAT in EXPR { BODY }` -> `{ let mut IT = shim_into_iter(EXPR); loop INV { match shim_next(&mut IT) { Some(PAT) => { BODY } None => { break; } } } }`
+                itname = fl[k]
+                if ct[kwi][1] != "for":
+                    raise Undecided(f"R2: loop #{k} in {sel} is not a `for` loop any more")
+                # find `in` at depth 0 between for and body
+                depth = 0
+                kin = None
+                for q in range(kwi + 1, lbi):
+                    t = ct[q]
+                    if t[0] == "punct" and t[1] in "([{": depth += 1
+                    elif t[0] == "punct" and t[1] in ")]}": depth -= 1
+                    elif t[0] == "ident" and t[1] == "in" and depth == 0:
+                        kin = q; break
+                if kin is None:
+                    raise Undecided(f"R2: cannot parse for-loop header #{k} in {sel}")
+                pat = text[ct[kwi + 1][2]:ct[kin - 1][3]]
+                expr = text[ct[kin + 1][2]:ct[lbi - 1][3]]
+                le = match_brace(ct, lbi)
+                head = "let mut %s = shim_into_iter(%s); loop %s { match shim_next(&mut %s) { Some(%s) => " % (itname, expr, invtxt, itname, pat)
+                edits.append((ct[kwi][2], head, ct[lbi][2] - ct[kwi][2]))
+                edits.append((ct[le][3], " None => { break; } } }", 0))
+                log.append({"rule": "R2", "item": sel, "from": f"for {pat} in {expr} {{..}}", "to": f"let mut {itname} = shim_into_iter({expr}); loop {{ match shim_next(&mut {itname}) {{ Some({pat}) => {{..}} None => break }} }}", "count": 1})
+            else:
+                edits.append((ct[lbi][2], invtxt, 0))
     edits.sort(key=lambda x: -x[0])
     for off, ins, dl in edits:
         text = text[:off] + ins + text[off + dl:]
@@ -394,7 +457,7 @@ def compose(template_text, repo_root, read_file):
             args = {k: v.strip() for k, v in args.items()}
             if "file" not in args or "sel" not in args:
                 raise Undecided(f"bad //@ITEM line: {l}")
-            spec, loops, before, after, rew = [], [], [], [], []
+            spec, loops, before, after, rew, forloops = [], [], [], [], [], []
             cur = None
             i += 1
             while i < len(lines) and not lines[i].strip().startswith("//@END"):
@@ -404,6 +467,10 @@ def compose(template_text, repo_root, read_file):
                 elif s.startswith("//@LOOP"):
                     cur = []
                     loops.append((int(s.split()[1]), cur))
+                elif s.startswith("//@FORLOOP"):
+                    parts = s.split()
+                    forloops.append((int(parts[1]), parts[2]))
+                    cur = None
                 elif s.startswith("//@BEFORE") or s.startswith("//@AFTER"):
                     parts = s.split(None, 2)
                     cur = []
@@ -431,7 +498,7 @@ def compose(template_text, repo_root, read_file):
             is_fn = "fn " in args["sel"] and not args["sel"].startswith(("struct", "enum", "const", "static", "type"))
             if is_fn:
                 new_text = splice_fn(item_text, spec=spec, ret=args.get("ret"), loops=loops, before=before, after=after,
-                                     rewrites=rew, strip_pub=(args.get("strip", "pub") == "pub"), log=rewrites_log, sel=args["sel"])
+                                     rewrites=rew, strip_pub=(args.get("strip", "pub") == "pub"), log=rewrites_log, sel=args["sel"], forloops=forloops)
             else:
                 new_text = item_text
                 for rule, frm, to in rew:
